@@ -676,6 +676,66 @@ theorem k2_not_closed_under_prefix :
     (engine ex7Cut ex7Tgt {}).map (fun r => (run (ofConfig ex7Cut) r.script).2) = some none := by
   refine ⟨by decide, by decide, by decide, by decide⟩
 
+/-! ## 11. F-C14g: members of an unshared group are changed before the lines (C14)
+
+The oracle of harness asacfg found it on the real code; the engine model (whose script equals drc's on this input)
+reproduces it: `equalizedGroups` edits the group while the lines are compared, the line commands are printed
+afterwards.  Packet semantics here: first match over the bound access list, implicit deny; a packet is given by its
+protocol, the member (network) that contains its source, and its destination host; the two line shapes of the example
+are interpreted (`permit udp object-group G any4`, `deny ip any4 host 10.1.1.2`). -/
+
+structure XPkt where
+  proto : String
+  srcNet : String     -- the member text of the network that contains the source address
+  dstHost : String
+  deriving DecidableEq, Repr
+
+/-- `some true` = permit, `some false` = deny, `none` = the line does not match. -/
+def xLineVerdict (d : Dev) (l : RLine) (p : XPkt) : Option Bool :=
+  if l.body = ["permit udp object-group ", " any4"] then
+    (if p.proto = "udp" ∧ (membersOf d (l.names.headD "")).contains p.srcNet then some true else none)
+  else if l.body = ["deny ip any4 host 10.1.1.2"] then
+    (if p.dstHost = "10.1.1.2" then some false else none)
+  else none
+
+def xVerdict (d : Dev) (acl : Name) (p : XPkt) : Bool :=
+  ((linesOf d acl).findSome? fun l => xLineVerdict d l p).getD false
+
+/-- The device after each command. -/
+def execTrace : Dev → List Chg → List Dev
+  | _, [] => []
+  | d, c :: cs => match exec1 d c with
+    | .ok d' => d' :: execTrace d' cs
+    | .error _ => []
+
+def exGDev : Config :=
+  { intfs := ["dmz"], groups := [("g2", ["10.3.3.0 255.255.255.0", "host 10.5.5.5"])],
+    acls := [("dmz_in", [⟨["permit udp object-group ", " any4"], ["permit udp object-group ", " any4"], ["g2"]⟩])],
+    binds := [⟨"dmz_in", "in", "dmz"⟩] }
+def exGTgt : Config :=
+  { groups := [("g2", ["10.3.3.0 255.255.255.0", "host 10.5.5.5", "10.6.0.0 255.255.0.0"])],
+    acls := [("dmz_in", [⟨["deny ip any4 host 10.1.1.2"], ["deny ip any4 host 10.1.1.2"], []⟩,
+                         ⟨["permit udp object-group ", " any4"], ["permit udp object-group ", " any4"], ["g2"]⟩])],
+    binds := [⟨"dmz_in", "in", "dmz"⟩] }
+def exGScripts : Scripts :=
+  { acl := [(("dmz_in", "dmz_in"), [⟨0, 0, 0, 1⟩, ⟨0, 1, 1, 2⟩])], grp := [(("g2", "g2"), [⟨0, 1, 0, 1⟩, ⟨1, 1, 1, 2⟩, ⟨1, 2, 2, 3⟩])] }
+
+/-- udp 10.6.1.1 → 10.1.1.2 -/
+def exGPkt : XPkt := ⟨"udp", "10.6.0.0 255.255.0.0", "10.1.1.2"⟩
+
+/-- **`asa_group_edit_before_lines_counterexample`** (F-C14g): the input is in class K2, the model prints the member
+command before the line insert, the strict device accepts all three commands, the packet is denied on the device
+before the run and on the final device — and permitted in the state after the member command. -/
+theorem asa_group_edit_before_lines_counterexample :
+    k2Check exGDev exGTgt exGScripts = true ∧
+    (engine exGDev exGTgt exGScripts).map (fun r => showChanges r.script) = some [
+      "object-group network g2", "network-object 10.6.0.0 255.255.0.0",
+      "access-list dmz_in line 1 extended deny ip any4 host 10.1.1.2"] ∧
+    xVerdict (ofConfig exGDev) "dmz_in" exGPkt = false ∧
+    (engine exGDev exGTgt exGScripts).map (fun r =>
+      (execTrace (ofConfig exGDev) r.script).map fun d => xVerdict d "dmz_in" exGPkt) = some [false, true, false] := by
+  refine ⟨by decide, by decide, by decide, by decide⟩
+
 def obligations : List Lean.Name := [
   ``names_fresh, ``names_injective, ``findGroup_sound, ``findGroup_first,
   ``group_equalize_converges, ``group_edit_emits_memOps, ``group_needed_never_edited, ``group_edit_only_if_small,
@@ -687,6 +747,7 @@ def obligations : List Lean.Name := [
   ``asa_F1_iso_quiet, ``asa_F1_idempotent_partial,
   ``diffUnordered_computes, ``asa_routes_script_is_model, ``asa_routes_phases, ``asa_routes_covered_every_step,
   ``asa_F1_subcommands_in_own_mode, ``asa_F1_member_command_in_parent_mode, ``asa_F1_no_referenced_object_deleted,
-  ``two_routes_one_prefix_outside_spec, ``k2_not_closed_under_prefix]
+  ``two_routes_one_prefix_outside_spec, ``k2_not_closed_under_prefix,
+  ``asa_group_edit_before_lines_counterexample]
 
 end NA.F1
